@@ -22,7 +22,11 @@ TRUSTED_EXTRA = ["the 1 K bound on the non-linearity residue at the internal tar
 
 def make_pass(rng, n, n0, phase, base_count):
     nums = list(range(n0, n0 + n))
-    prt = [0 if (x - phase) % 5 == 0 else base_count + ((x - phase) % 5) + rng.randint(-1, 1) for x in nums]
+    # the marker on the reset lines is "below 50 counts": exactly 0, one small value, or small values varying from line to line
+    style = rng.choice(["zero", "zero", "const", "varying"])
+    const = rng.randint(1, 49)
+    mark = lambda: 0 if style == "zero" else (const if style == "const" else rng.randint(0, 49))      # noqa
+    prt = [mark() if (x - phase) % 5 == 0 else base_count + ((x - phase) % 5) + rng.randint(-1, 1) for x in nums]
     ict_level = rng.randint(300, 600)
     sp_level = rng.randint(900, 1020)
     ict = [ict_level + rng.randint(-2, 2) for _ in nums]
